@@ -307,10 +307,148 @@ SymMatrices(n, E) ==
      : f \in [pairs -> 0..E]}
 
 \* the same on observables: leaf list and the matrix of Tree.get_distance(i, j)
-NjPostObs(D, leaves, dist) ==
+NjPostObsWith(D, additive, leaves, dist) ==                 \* additive = Dom_Additive(D), evaluated once by the caller
   LET once == Len(leaves) = Len(D) /\ ToSet(leaves) = 0..(Len(D) - 1) IN
   [leaves |-> once,
-   paths  |-> Dom_Additive(D) => (once /\ \A i, j \in DOMAIN D : REq(dist[i][j], R(D[i][j])))]
+   paths  |-> additive => (once /\ \A i, j \in DOMAIN D : REq(dist[i][j], R(D[i][j])))]
+NjPostObs(D, leaves, dist) == NjPostObsWith(D, Dom_Matrix(D) /\ Dom_Additive(D), leaves, dist)
+
+(* ------------------------------------------------------------------ block matrices: large inputs
+   TLC cannot enumerate matrices of several hundred taxa, but counters and array element widths of
+   the code only matter there (a cluster of 127 / 128 / 255 / 256 / 257 taxa).  A block matrix is
+   given by a small base matrix B over k groups and the group of every taxon:
+     B[g][h]  distance between a taxon of group g and a taxon of group h (g # h),
+     B[g][g]  distance between two different taxa of group g,
+     grp      sequence, grp[i + 1] = group (1..k) of taxon i.
+   The property's postcondition on such a matrix needs only the number of taxa of every group in a
+   cluster (lemma L_AvgLinkCnt) and one pass over the returned tree (lemma L_FlatPost); both are
+   model-checked on every small instance (MCBlock) and then used for the large ones. *)
+SeqSum(s) == FoldLeft(LAMBDA a, b : a + b, 0, s)
+Expand(B, grp) == [i \in DOMAIN grp |-> [j \in DOMAIN grp |-> IF i = j THEN 0 ELSE B[grp[i]][grp[j]]]]
+Counts(grp, k, A) == [g \in 1..k |-> Cardinality({a \in A : grp[a + 1] = g})]
+GroupSizes(grp, k) == [g \in 1..k |-> Cardinality({q \in DOMAIN grp : grp[q] = g})]
+\* average linkage of two disjoint clusters from their group counts
+AvgLinkCnt(B, ca, cb) ==
+  LET ks == [g \in 1..Len(B) |-> g]
+      num == FoldLeft(LAMBDA acc, g : acc + ca[g] * FoldLeft(LAMBDA a2, h : a2 + cb[h] * B[g][h], 0, ks), 0, ks)
+  IN RNorm(num, SeqSum(ca) * SeqSum(cb))
+Dom_Block(B, grp) ==
+  /\ Len(B) >= 1 /\ Len(grp) >= 2
+  /\ \A g \in DOMAIN B : Len(B[g]) = Len(B)
+  /\ \A g, h \in DOMAIN B : B[g][h] = B[h][g] /\ B[g][h] >= 0
+  /\ \A q \in DOMAIN grp : grp[q] \in DOMAIN B
+
+\* where the taxa of the groups sit in the matrix (the code keeps a merged cluster at the larger index)
+Arrangements == {"asc", "desc", "mix"}
+Arrange(s, arr) ==
+  LET k == Len(s)
+      asc == FlattenSeq([g \in 1..k |-> [q \in 1..s[g] |-> g]])
+      ks == [g \in 1..k |-> g]
+  IN CASE arr = "asc"  -> asc
+       [] arr = "desc" -> Reverse(asc)
+       [] OTHER        -> FlattenSeq([r \in 1..Max(ToSet(s)) |-> SelectSeq(ks, LAMBDA g : s[g] >= r)])   \* round robin
+
+\* A tree as one list: the inner nodes in post-order, each <<kids, lens>>; a child is its leaf index
+\* (>= 0) or -(position of the inner node in the list); lens = branch lengths to the children.
+RECURSIVE FlatFrom(_, _)
+FlatFrom(t, acc) ==                                         \* -> <<list, reference to t>>
+  IF IsLeaf(t) THEN <<acc, t.idx>>
+  ELSE Bind(FoldLeft(LAMBDA st, k : Bind(FlatFrom(t.kids[k], st[1]), LAMBDA x : <<x[1], Append(st[2], x[2])>>),
+                     <<acc, <<>>>>, [k \in DOMAIN t.kids |-> k]), LAMBDA r :
+       Bind(Append(r[1], <<r[2], [k \in DOMAIN t.kids |-> t.kids[k].len]>>), LAMBDA acc2 : <<acc2, -Len(acc2)>>))
+Flat(t) == FlatFrom(t, <<>>)[1]
+
+\* The postcondition of upgma() on Expand(B, grp), one pass over the list: every index exactly one
+\* leaf; every inner node has two children, both at depth = half the average linkage of their clusters.
+FlatPost(B, grp, flat, n) ==
+  LET k == Len(B)
+      m == Len(flat)
+      unit(g) == [x \in 1..k |-> IF x = g THEN 1 ELSE 0]
+      leafRefs  == FlattenSeq([q \in 1..m |-> SelectSeq(flat[q][1], LAMBDA r : r >= 0)])
+      innerRefs == FlattenSeq([q \in 1..m |-> SelectSeq(flat[q][1], LAMBDA r : r < 0)])
+      wellFormed ==
+        /\ m >= 1
+        /\ \A q \in 1..m : /\ Len(flat[q][1]) >= 1 /\ Len(flat[q][2]) = Len(flat[q][1])
+                           /\ \A x \in DOMAIN flat[q][1] : flat[q][1][x] > -q           \* children come first
+        /\ Len(innerRefs) = m - 1 /\ ToSet(innerRefs) = {-q : q \in 1..(m - 1)}         \* one tree, root last
+      once == wellFormed /\ Len(leafRefs) = n /\ ToSet(leafRefs) = 0..(n - 1)
+      Sub(acc, r) == IF r >= 0 THEN [cnt |-> unit(grp[r + 1]), h |-> R(0), ok |-> TRUE] ELSE acc[-r]
+      \* h = depth of the leaves below the node as observed (along the first child); rationals are
+      \* normalised, so equality of the pairs is equality of the numbers (no products of large numbers)
+      NodeSum(acc, nd) ==
+        IF Len(nd[1]) # 2
+          THEN [cnt |-> [x \in 1..k |-> 0], h |-> R(0), ok |-> FALSE]
+          ELSE Bind(Sub(acc, nd[1][1]), LAMBDA a : Bind(Sub(acc, nd[1][2]), LAMBDA b :
+               Bind(RDivI(AvgLinkCnt(B, a.cnt, b.cnt), 2), LAMBDA half :
+               Bind(RAdd(a.h, nd[2][1]), LAMBDA h1 :
+                 [cnt |-> [x \in 1..k |-> a.cnt[x] + b.cnt[x]], h |-> h1,
+                  ok  |-> a.ok /\ b.ok /\ h1 = half /\ RAdd(b.h, nd[2][2]) = half]))))
+  IN [leaves  |-> once,
+      heights |-> once /\ FoldLeft(LAMBDA acc, q : Append(acc, NodeSum(acc, flat[q])), <<>>, [q \in 1..m |-> q])[m].ok]
+
+(* ---- which block matrices are exact in the code's float32 arithmetic ------------------------
+   When every B[g][g] is smaller than every B[g][h] (g # h) the groups are completed first (all
+   means stay entries of B), then the groups are merged like single taxa that carry the weights
+   s[g]: the "weighted run" below (lemma L_BlockValues: every mean the loop ever holds on
+   Expand(B, grp) is an entry of B or a value of the weighted run).  W = [act, size, d, vals, ties,
+   crit]: vals = every mean seen, ties = some minimum was not unique, crit = the largest cluster
+   size that entered a mean as an effective weight (the two distances averaged differ). *)
+WInit(B, s) ==
+  LET k == Len(B)  pairs == {q \in (1..k) \X (1..k) : q[1] > q[2]} IN
+  [act |-> 1..k, size |-> s, d |-> [p \in pairs |-> R(B[p[1]][p[2]])],
+   vals |-> {R(B[p[1]][p[2]]) : p \in pairs}, ties |-> FALSE, crit |-> 0]
+WD(W, i, j) == IF i > j THEN W.d[<<i, j>>] ELSE W.d[<<j, i>>]
+WStep(W) ==
+  LET live == {p \in DOMAIN W.d : p[1] \in W.act /\ p[2] \in W.act}
+      p == FirstMin(live, LAMBDA q : W.d[q])
+      i == p[1]  j == p[2]
+      si == W.size[i]  sj == W.size[j]
+      act2 == W.act \ {j}
+      rest == act2 \ {i}
+      newd == [x \in rest |-> RDivI(RAdd(RMulI(WD(W, i, x), si), RMulI(WD(W, j, x), sj)), si + sj)]
+  IN [act  |-> act2,
+      size |-> [W.size EXCEPT ![i] = si + sj],
+      d    |-> [q \in DOMAIN W.d |-> IF q[1] = i /\ q[2] \in rest THEN newd[q[2]]
+                                     ELSE IF q[2] = i /\ q[1] \in rest THEN newd[q[1]] ELSE W.d[q]],
+      vals |-> W.vals \cup {newd[x] : x \in rest},
+      ties |-> W.ties \/ \E q \in live : q # p /\ REq(W.d[q], W.d[p]),
+      crit |-> Max({W.crit} \cup {Max({si, sj}) : x \in {y \in rest : ~REq(WD(W, i, y), WD(W, j, y))}})]
+RECURSIVE WRunFrom(_)
+WRunFrom(W) == IF Cardinality(W.act) <= 1 THEN W ELSE WRunFrom(WStep(W))
+WRun(B, s) == WRunFrom(WInit(B, s))
+\* v * s and sums of such products are exact in float32: eighths with a numerator below 2^24
+ExactVal(v, n) == v[2] \in {1, 2, 4, 8} /\ v[1] >= 0 /\ v[1] <= (16777215 \div n) \div (8 \div v[2])
+Dom_BlockSizes(B, s) ==                                      \* s[g] = number of taxa of group g
+  LET k == Len(B) IN
+  /\ k >= 2 /\ Len(s) = k /\ \A g \in 1..k : s[g] >= 1
+  /\ \A g, x, y \in 1..k : x # y => B[g][g] < B[x][y]              \* groups are completed first
+  /\ \E W \in {WRun(B, s)} : ~W.ties /\ \A v \in W.vals : ExactVal(v, SeqSum(s))
+Dom_BlockExact(B, grp) == Dom_Block(B, grp) /\ Dom_BlockSizes(B, GroupSizes(grp, Len(B)))
+
+\* the family of block matrices the specification generates: off-diagonal 2 u b[g][h] with u = odd
+\* part of the size of the first merged pair of groups (the first weighted mean is then dyadic),
+\* inside the groups 1, 0, 1, ...
+RECURSIVE OddPart(_)
+OddPart(x) == IF x > 0 /\ x % 2 = 0 THEN OddPart(x \div 2) ELSE x
+BlockBase(b, s) ==
+  LET k == Len(s)
+      pairs == {q \in (1..k) \X (1..k) : q[1] > q[2]}
+      p == FirstMin(pairs, LAMBDA q : R(b[q[1]][q[2]]))
+      u == OddPart(s[p[1]] + s[p[2]])
+  IN [g \in 1..k |-> [h \in 1..k |-> IF g = h THEN g % 2 ELSE 2 * u * b[g][h]]]
+
+(* ------------------------------------------------------------------ the caller's array
+   upgma() and neighbor_joining() take any two-dimensional numeric array and work on a copy: the
+   caller's array holds the same matrix after a call, so a second call on it (or a comparison of
+   the tree with it) sees the same matrix.  A session is a sequence of calls on one array. *)
+ArrayKinds == {"f8", "f4", "i8", "i4", "u1", "f4F", "f4ro", "f8ro", "f4view"}
+\*  f8 / f4 float64 / float32, i8 / i4 / u1 integers, F = column-major, ro = write-protected,
+\*  view = every second row and column of a larger float32 array
+Dom_Kind(D, kind) ==
+  /\ kind \in ArrayKinds
+  /\ kind = "u1" => \A i \in DOMAIN D : \A j \in DOMAIN D[i] : D[i][j] \in 0..255
+ClusterFns == {"upgma", "nj"}
+ArrayAfter(fn, M) == M
 
 (* ------------------------------------------------------------------ generators of trees *)
 \* partitions of a set S into exactly k non-empty blocks, as sets of blocks
